@@ -492,16 +492,14 @@ fn cli_in(input: &Value, bin: &str, dir: &PathBuf) -> R {
     let stderr = err_t.join().unwrap_or_default();
 
     let mut o = json!({
-        "status": status.code(),
-        "signal": status.signal(),
+        "status": status.code().unwrap_or(-1),
+        "signal": status.signal().unwrap_or(0),
         "stdout": hx(&stdout),
         "stderr_len": stderr.len(),
         "stderr_head": String::from_utf8_lossy(&stderr[..stderr.len().min(240)]),
         "wall_ms": wall_ms,
     });
-    if timed_out {
-        o["timeout"] = json!(true);
-    }
+    o["timeout"] = json!(timed_out);
     if input.get("shim").filter(|x| !x.is_null()).is_some() {
         let mut reqs = Vec::new();
         if let Ok(text) = fs::read_to_string(&log_path) {
